@@ -91,7 +91,11 @@ type Ctx struct {
 	knownSeen map[string]bool
 }
 
-const maxViolKept = 64
+const (
+	maxViolKept     = 64
+	maxViolPerClass = 8
+	maxViolTotal    = 1024
+)
 
 func NewCtx(prop, tier string, seed int64, budget time.Duration) *Ctx {
 	now := time.Now()
@@ -248,16 +252,28 @@ func (c *Ctx) Fail(order int64, kind, class string, cs interface{}, got, want st
 	}
 	// keep the maxViolKept smallest orders
 	c.viols = append(c.viols, Viol{order, kind, class, raw, got, want})
-	if len(c.viols) > 4*maxViolKept {
+	if len(c.viols) > 4*maxViolTotal {
 		c.trim()
 	}
 }
 
+// trim keeps the maxViolKept smallest orders overall and, beyond them, the maxViolPerClass smallest
+// orders of every class (so that a class whose mismatches all turn out to be history-dependent cannot
+// crowd out a class that reproduces), at most maxViolTotal in all.
 func (c *Ctx) trim() {
 	sort.SliceStable(c.viols, func(i, j int) bool { return c.viols[i].Order < c.viols[j].Order })
-	if len(c.viols) > maxViolKept {
-		c.viols = c.viols[:maxViolKept]
+	if len(c.viols) <= maxViolKept {
+		return
 	}
+	perClass := map[string]int{}
+	kept := c.viols[:0]
+	for i, v := range c.viols {
+		perClass[v.Class]++
+		if (i < maxViolKept || perClass[v.Class] <= maxViolPerClass) && len(kept) < maxViolTotal {
+			kept = append(kept, v)
+		}
+	}
+	c.viols = kept
 }
 
 // Failed reports how many mismatches have been recorded so far.
